@@ -1708,6 +1708,50 @@ def ob_factory_tree_models():
     return fn
 
 
+def ob_factory_literals():
+    """Distribution.json_factory with LITERAL parameters (numbers / lists, the form the CLI emits for priors) and a float64 random variable:
+    the loaded object evaluates like the directly constructed one at double precision (1e-12) and holding / sampling through it does not
+    change the dtype of the shared x — under torch's own default dtype (float32) and under the CLI's (float64)"""
+    def fn():
+        import torch
+        from torchtree.core.parameter import Parameter
+        from torchtree.distributions.distributions import Distribution
+        from vt.runner import default_dtype
+        u = _utils()
+        n, msgs = 0, []
+        xs = [0.37, 1.91, 0.052]
+        cases = [("torch.distributions.Normal", torch.distributions.Normal, {"loc": 0.1, "scale": 0.7}),
+                 ("torch.distributions.Exponential", torch.distributions.Exponential, {"rate": [0.1, 1.3, 2.6]}),
+                 ("torch.distributions.Gamma", torch.distributions.Gamma, {"concentration": 2.3, "rate": [0.7, 0.7, 1.9]}),
+                 ("torch.distributions.LogNormal", torch.distributions.LogNormal, {"loc": [0.3, -0.2, 1.7], "scale": 0.45})]
+        for dflt in (torch.float32, torch.float64):
+            with default_dtype(dflt):
+                for path, klass, params in cases:
+                    dic = {}
+                    xspec = {"id": "x", "type": "Parameter", "tensor": xs, "dtype": "torch.float64"}
+                    loaded = u.process_object(Distribution.json_factory("d", path, xspec, dict(params)), dic)
+                    X = Parameter("x", torch.tensor(xs, dtype=torch.float64))
+                    direct = Distribution("d", klass, X, {k: Parameter(None, torch.tensor(v if isinstance(v, list) else [v], dtype=torch.float64)) for k, v in params.items()})
+                    v1, v2 = loaded(), direct()
+                    n += 1
+                    if v1.shape != v2.shape or not torch.allclose(v1.to(torch.float64), v2, rtol=1e-12, atol=1e-12):
+                        msgs.append("%s with literal parameters %s (default dtype %s): loaded object evaluates to %s (%s), directly constructed float64 object to %s"
+                                    % (path, params, dflt, [round(float(t), 10) for t in v1.reshape(-1)], v1.dtype, [round(float(t), 10) for t in v2.reshape(-1)]))
+                    if dic["x"].tensor.dtype != torch.float64:
+                        msgs.append("%s: the registered x is %s after loading" % (path, dic["x"].tensor.dtype))
+                    try:
+                        torch.manual_seed(1)
+                        loaded.sample()
+                        if dic["x"].tensor.dtype != torch.float64:
+                            msgs.append("%s (default dtype %s): after sample() through the loaded object the shared x is %s, it was float64" % (path, dflt, dic["x"].tensor.dtype))
+                    except Exception:
+                        pass
+        if msgs:
+            raise Refuted(msgs[0], witness={"factory": "Distribution (literal parameters)", "observed": msgs[:6]}, replay=None, confirmed=True)
+        return {"backend": "concrete", "cases": n, "statement": "Distribution.json_factory with literal parameters: %d specifications evaluate like the direct float64 object to 1e-12" % n}
+    return fn
+
+
 def ob_sharing_generic():
     """U: a reference resolved before and after arbitrary contract-conforming registry activity yields one instance"""
     def fn():
@@ -1893,6 +1937,7 @@ def obligations(tier, seed):
     add("C13.comments.real", "B", ob_comments_no_effect(), "comments", funcs=FUNCS[4:5])
     for w in ("Parameter", "Distribution", "Distribution.refs", "DeterministicNormal", "BayesianBridge", "ScaleMixtureNormal"):
         add("C13.factory[%s]" % w, "B", ob_factory(w), "json_factory", funcs=[])
+    add("C13.factory[Distribution, literal parameters]", "B", ob_factory_literals(), "json_factory", funcs=[])
     add("C13.factory[tree models x keep_branch_lengths]", "B", ob_factory_tree_models(), "json_factory", funcs=[])
     # --- G: vacuity guards
     drop, cpy, fixd = _variant("drop_duplicate_check"), _variant("reference_returns_copy"), _variant("recheck_inserted")
